@@ -235,7 +235,7 @@ fn c01_t_spsc_async_send_batch() {
 /// keeps exactly the unsent tail, the delivered part is the prefix, nothing is lost or duplicated.
 #[kani::proof]
 #[kani::unwind(5)]
-fn c01_q_spsc_async_send_batch_mut_cancel() {
+fn c01_t_spsc_async_send_batch_mut_cancel() {
   with_pick(2, |pre| {
     let (mut tx, mut rx) = spsc::bounded_async::<u8>(2);
     let mut i = 0u8;
